@@ -214,6 +214,57 @@ fn activation_case(ctx: &Ctx, bytes: &[u8]) -> Outcome {
     check_session(ctx, "C01", &forms, &feats, &|st, _| st.closure_calls > 2)
 }
 
+/// Promises that are forced re-entrantly (R7RS 4.2.5 / 7.3: the value of the first completed
+/// force is kept, whatever the outer, still running, force goes on to compute), forced repeatedly,
+/// and chained through delay-force style nesting.
+fn promise_program(c: &mut mwv_core::choice::Choices) -> Vec<Sx> {
+    let n = 1 + c.below(5);
+    let up = 1 + c.below(3);
+    let mut src = String::new();
+    match c.below(4) {
+        0 => {
+            // the outer force post-processes after the inner one completed
+            src.push_str(&format!(
+                "(define pc {n}) (define pp (delay (if (<= pc 0) pc (begin (set! pc (- pc 1)) (force pp) (set! pc (+ pc {up})) pc)))) pc (force pp) pc (force pp) pc",
+                n = n,
+                up = up
+            ));
+        }
+        1 => {
+            src.push_str(&format!(
+                "(define px {n}) (define pcount 0) (define pp (delay (begin (set! pcount (+ pcount 1)) (if (> pcount px) pcount (force pp))))) (force pp) (begin (set! px {m}) (force pp)) pcount",
+                n = n,
+                m = n + up + 3
+            ));
+        }
+        2 => {
+            src.push_str(&format!(
+                "(define pf (let ((first? #t) (seen '())) (delay (begin (set! seen (cons {n} seen)) (if first? (begin (set! first? #f) (cons 'outer (force pf))) (list 'second seen)))))) (force pf) (force pf)",
+                n = n
+            ));
+        }
+        _ => {
+            // a promise whose value is another promise's value, both forced in either order
+            src.push_str(&format!(
+                "(define plog '()) (define pa (delay (begin (set! plog (cons 'a plog)) {n}))) (define pb (delay (begin (set! plog (cons 'b plog)) (+ (force pa) {up})))) {first} {second} (force pb) (force pa) plog",
+                n = n,
+                up = up,
+                first = if c.flip() { "(force pa)" } else { "(force pb)" },
+                second = if c.flip() { "(force pb)" } else { "(list (force pa) (force pb))" }
+            ));
+        }
+    }
+    read_all(&src).expect("promise template parses")
+}
+
+fn promise_case(ctx: &Ctx, bytes: &[u8]) -> Outcome {
+    let mut c = mwv_core::choice::Choices::new(bytes);
+    let forms = promise_program(&mut c);
+    let mut feats = std::collections::BTreeSet::new();
+    feats.insert("promise-forced-re-entrantly-or-repeatedly");
+    check_session(ctx, "C01", &forms, &feats, &|_, _| true)
+}
+
 impl Prop for C01 {
     fn id(&self) -> &'static str {
         "C01"
@@ -222,7 +273,7 @@ impl Prop for C01 {
         Some(("program", 20_000, 1536))
     }
     fn rule(&self) -> &'static str {
-        "sessions of 1-8 top-level forms from the typed program generator (definitions, type-preserving redefinitions, global set!, expressions over all core and derived forms, apply/eval/higher-order use), each run in the reference interpreter and in three VMs (fresh, second fresh, polluted with unrelated definitions); plus activation histories (a maker procedure with formals (), (a), (a . r) or r whose instances close over internal definitions / let / parameter state, created and operated on in a random interleaving, and a recursive procedure that reads its own internal definition after the recursive call returned). Non-trivial: the reference run calls at least one user-defined procedure and the session uses >= 2 different special/derived forms; distinct by program text."
+        "sessions of 1-8 top-level forms from the typed program generator (definitions, type-preserving redefinitions, global set!, expressions over all core and derived forms, apply/eval/higher-order use), each run in the reference interpreter and in three VMs (fresh, second fresh, polluted with unrelated definitions); plus activation histories (a maker procedure with formals (), (a), (a . r) or r whose instances close over internal definitions / let / parameter state, created and operated on in a random interleaving, and a recursive procedure that reads its own internal definition after the recursive call returned), and promises forced re-entrantly and repeatedly. Non-trivial: the reference run calls at least one user-defined procedure and the session uses >= 2 different special/derived forms; distinct by program text."
     }
     fn assumptions(&self) -> Vec<&'static str> {
         vec![
@@ -237,6 +288,8 @@ impl Prop for C01 {
         ctx.run_bytes("session", cases, 1536, case);
         let acts = ctx.tier.pick(60u32, 1_500u32);
         ctx.run_bytes("activation", acts, 48, activation_case);
+        let proms = ctx.tier.pick(20u32, 300u32);
+        ctx.run_bytes("promise", proms, 12, promise_case);
     }
     fn replay(&self, ctx: &Ctx, kind: &str, payload: &Value) -> Outcome {
         match kind {
@@ -248,6 +301,7 @@ impl Prop for C01 {
                 check_forms(ctx, &forms, &Default::default())
             }
             "activation" => activation_case(ctx, &unhex(payload["bytes"].as_str().unwrap_or(""))),
+            "promise" => promise_case(ctx, &unhex(payload["bytes"].as_str().unwrap_or(""))),
             _ => case(ctx, &unhex(payload["bytes"].as_str().unwrap_or(""))),
         }
     }
